@@ -33,7 +33,7 @@ NON_EXTRA = {"list_name", "list name", "name", "label", "image", "audio", "video
 @st.composite
 def _cases(draw):
     prof = dict(gen.PROFILES["choices"], odd_list_names=True, p_search=0.1, p_pulldata=0.1, p_last_saved=0.08, p_multilang=0.4, p_table_list=0.05,
-                p_choice_nolabel=0.05, settings="some", p_entities=0.0, p_choice_label_ref=0.08)
+                p_choice_nolabel=0.05, settings="some", p_entities=0.0, p_choice_label_ref=0.08, p_custom_instance=0.15)
     g = gen.G(draw, prof)
     form = gen.build_form(draw, prof, g=g)
     if g.lists and g.p("_", 0.15):
